@@ -28,7 +28,13 @@ RULE = ("(a) mutate suite on ImmutableStructure classes and classes with Immutab
         "of dicts/lists, collections held through Optional/AnyOf, Map with Structure keys), each alone and next to a defaulted "
         "field: every object reachable through public reads at any depth x every mutator of its runtime type; every mutable "
         "object reachable from the constructor argument mutated afterwards; and the argument being the wrapper object read "
-        "from another structure's field, that structure mutated afterwards; non-trivial = >=1 op/probe; distinct by case hash")
+        "from another structure's field, that structure mutated afterwards; (g) the extended mutate stream (slices, sort "
+        "kwargs, kept / stale wrapper references, nested wrappers at depth 1-3 by key paths, collections of structures, "
+        "SizedString / formatted strings) on immutable classes and classes with immutable fields: nothing changes and, for "
+        "an immutable class, every attempt raises; (h) immfield specs for user-defined immutable wrappers "
+        "(class X(ImmutableField, AnyOf|OneOf|AllOf|Array|Deque|Map|Integer)) and untyped immutable sets / tuples / Anything "
+        "holding structures: direct re-assignment / None / deletion, accessor probe, constructor-argument aliasing; "
+        "non-trivial = >=1 op/probe; distinct by case hash")
 ASSUMPTIONS = [
     "default configuration (defensive_copy_on_get on, no trusted instantiation); direct __dict__/object.__setattr__ access excluded",
     "accessor half: proved on the heap model for the accessor modes of the regenerated table (extract/aliasing_c04.py: AST idiom + identity witness probe); the alias probe on the real code finds the failing input when a mode stops being true",
@@ -440,7 +446,8 @@ def judge(case, impl, model):
         if cls.get("immutable"):
             if before != after:
                 fails.append((f"immutable-changed:{site}", f"{json.dumps(op)[:200]} changed an ImmutableStructure: {json.dumps(after)[:300]}"))
-            elif st["out"] == "ok" and op["op"] not in ("callNested", "take"):
+            elif st["out"] == "ok" and op["op"] != "take" and not (op["op"] == "callNested" and not S.nested_bound_now()):
+                # (a nested wrapper of a tree whose nested wrappers are scratch-bound acts on a defensive copy without raising)
                 fails.append((f"immutable-no-raise:{site}", f"{json.dumps(op)[:200]} did not raise on an ImmutableStructure"))
         else:
             b = dict(before["o"][1])
